@@ -216,6 +216,9 @@ fn attempt(bi: &BaseImg, patches: &[(u64, Vec<u8>)], truncate_to: Option<u64>, s
                 return Some((format!("C07/accepted-incoherent/{class}"), format!("{}: accepted although {reasons:?}", ctx())));
             }
             let g = decoder::parse_raw(&boot).unwrap();
+            if g.layout32 && g.ext_flags & 0x80 != 0 && (g.ext_flags & 0x0F) as u32 >= g.nfats {
+                return Some(("C07/accepted-incoherent/active-FAT-copy-does-not-exist".into(), format!("{}: accepted although active copy {} of {} FATs", ctx(), g.ext_flags & 0x0F, g.nfats)));
+            }
             if w != g.width || cs as u64 != g.cluster_size() || (total != u32::MAX && total as u64 != g.clusters) {
                 return Some((
                     "C07/accepted-geometry-differs-from-independent-parse".into(),
@@ -352,6 +355,56 @@ pub fn run(tier: &str) -> i32 {
                 let mut b = bi.boot.clone();
                 put(&mut b, &fld("root_cluster"), rc);
                 jobs.push((format!("root_cluster_reserved_bits={rc:#x}"), vec![(0, b)], None));
+            }
+        }
+        {
+            let bps = g.bps as u64;
+            let dev_len = match &*bi.base { Base::Bytes(v) => v.len() as u64, _ => 0 };
+            // (E1) fs-info sector number outside the reserved area, with a well-formed fs-info sector planted there
+            if g.layout32 {
+                let fl32 = fields(true);
+                let fld = |n: &str| *fl32.iter().find(|f| f.name == n).unwrap();
+                for v in [g.reserved as u64, g.reserved as u64 + 1, g.root_start_sec, g.data_start_sec, g.data_start_sec + 5, 0xFFFF] {
+                    if v > 0xFFFF || (v + 1) * bps > dev_len {
+                        continue;
+                    }
+                    let mut b = bi.boot.clone();
+                    put(&mut b, &fld("fs_info_sector"), v as u32);
+                    jobs.push((format!("planted_fsinfo_at_sector={v:#x}"), vec![(0, b), (v * bps, bi.fsinfo.clone())], None));
+                }
+            } else {
+                // (E2) FAT12/16 layout with a FAT32 cluster count, boot sector doubling as a well-formed fs-info sector
+                let fl16 = fields(false);
+                let fld = |n: &str| *fl16.iter().find(|f| f.name == n).unwrap();
+                for clusters in [65525u64, 65526, 1 << 20] {
+                    for spc in [1u64, 8] {
+                        let mut b = bi.boot.clone();
+                        put(&mut b, &fld("sectors_per_cluster"), spc as u32);
+                        put(&mut b, &fld("total_sectors_16"), 0);
+                        put(&mut b, &fld("total_sectors_32"), (g.data_start_sec + clusters * spc) as u32);
+                        b[0..4].copy_from_slice(&0x4161_5252u32.to_le_bytes());
+                        b[484..488].copy_from_slice(&0x6141_7272u32.to_le_bytes());
+                        b[488..496].copy_from_slice(&[0xFF; 8]);
+                        b[508..510].copy_from_slice(&[0, 0]);
+                        jobs.push((format!("boot_as_fsinfo(clusters={clusters:#x},spc={spc})"), vec![(0, b)], None));
+                    }
+                }
+            }
+            // (E3) the bytes of the boot sector that are not numeric fields: OEM name, FAT32 reserved block, labels
+            let mut ranges: Vec<(usize, usize)> = vec![(1, 3), (3, 11)];
+            if g.layout32 {
+                ranges.extend([(52, 64), (71, 90)]);
+            } else {
+                ranges.extend([(43, 62)]);
+            }
+            for (lo, hi) in ranges {
+                for off in lo..hi {
+                    for v in 0..=255u8 {
+                        let mut b = bi.boot.clone();
+                        b[off] = v;
+                        jobs.push((format!("boot_byte_{off}={v:#x}"), vec![(0, b)], None));
+                    }
+                }
             }
         }
         for cut in [0u64, 1, 11, 36, 90, 510, 511] {
